@@ -14,8 +14,9 @@ from typing import Any, Callable, Dict, List, Optional, Tuple
 from . import pool, tlc
 
 ROOT = Path(__file__).resolve().parent.parent
-EVID = ROOT / "evidence"
-REPLAYS = ROOT / "replays"
+# seeded-change sweeps (vf/seedsweep.py) run the checks against scratch worktrees and must not touch the evidence
+EVID = Path(os.environ.get("VF_EVIDENCE_DIR") or (ROOT / "evidence"))
+REPLAYS = Path(os.environ.get("VF_REPLAY_DIR") or (ROOT / "replays"))
 KF_FILE = ROOT / "known_findings.json"
 
 
